@@ -40,6 +40,9 @@ REPS = [
     dict(rep="matrices", labels="frozendict", alabels="int", explicit_list=True, dist="dict"),
     dict(rep="subclass", labels="mixed", alabels="mixed", explicit_list=False, dist="uniform"),
     dict(rep="quick", labels="str", alabels="tuple", explicit_list=True, dist="dict"),
+    # distinct labels with colliding hashes (CPython: hash(-1) == hash(-2)): memo tables keyed by hash(label)
+    dict(rep="quick", labels="negint", alabels="negint", explicit_list=False, dist="dict"),
+    dict(rep="subclass", labels="negtuple", alabels="str", explicit_list=True, dist="dict"),
 ]
 
 
